@@ -23,6 +23,8 @@ const pkgGrouperPlugins = "pkg/podgrouper/podgrouper/plugins"
 func runC18(c *Ctx) {
 	runC18OwnerIdentity(c)
 	runC18Wiring(c)
+	runC18LookupErrors(c)
+	runC18RayHead(c)
 	p, fx := c.P, c.Fx
 	apply := c.Anchor("O1", pkgPGHandler, "Handler", "ApplyToCluster")
 	ignore := c.Anchor("O2", pkgPGHandler, "Handler", "ignoreFields")
@@ -478,4 +480,54 @@ func runC18Wiring(c *Ctx) {
 		}
 	}
 	c.Floor("O7", "PROV label-key hand-overs", n, 2)
+}
+
+// C18-O8 (RET): a lookup that failed for another reason than "not found" is not taken for "not found". The groupers
+// look for legacy PodGroups, owners and existing objects and branch on IsNotFound; continuing with the not-found
+// result after a timeout or a throttled request computes a different PodGroup (another name, no owner) for the same
+// pod, writes it, and the next reconcile moves the pod back. A function that tests IsNotFound(err) never returns a nil
+// error on a path that has established err != nil ∧ !IsNotFound(err).
+func runC18LookupErrors(c *Ctx) {
+	p, fx := c.P, c.Fx
+	n := 0
+	for _, fn := range p.FuncsIn("pkg/podgrouper") {
+		if isTestdataOrMock(fn) {
+			continue
+		}
+		bad, tests := swallowedLookupErrors(fx, fn)
+		n += tests
+		for _, rp := range bad {
+			c.Viol("O8", "RET", funcKey(fn)+": an error other than NotFound is returned, not treated as 'not found'", rp.Pos,
+				"the function returns without an error although its lookup failed with something other than NotFound: the pod is grouped as if the object did not exist (e.g. under a different PodGroup name) and the result is written")
+		}
+	}
+	c.Hold("O8", "RET", fmt.Sprintf("%d IsNotFound tests in the pod-grouper: no path returns success after another kind of error", n), 0, "held")
+	c.Floor("O8", "RET IsNotFound tests in the pod-grouper", n, 3)
+}
+
+// C18-O9 (RET): a Ray cluster's sub-groups always contain its head group. RayGrouper decides "legacy workload, no
+// sub-groups" from the STORED PodGroup having none (shouldUseSubGroups), so a computation that can succeed with an
+// empty sub-group list turns that empty list into a permanent property of the workload: a cluster first reconciled
+// head-only would never get sub-groups when workers are added, while the same cluster reconciled from scratch does.
+// Every successful return of calcJobNumOfPodsAndSubGroups hands back the list that was started with the head group.
+func runC18RayHead(c *Ctx) {
+	fn := c.Anchor("O9", "pkg/podgrouper/podgrouper/plugins/ray", "", "calcJobNumOfPodsAndSubGroups")
+	if fn == nil {
+		return
+	}
+	n := 0
+	for _, b := range fn.Blocks {
+		ret, ok := b.Instrs[len(b.Instrs)-1].(*ssa.Return)
+		if !ok || len(ret.Results) != 3 {
+			continue
+		}
+		if k, isK := ret.Results[2].(*ssa.Const); !isK || !k.IsNil() {
+			continue // an error return
+		}
+		n++
+		k, isNil := ret.Results[1].(*ssa.Const)
+		c.Check(!(isNil && k.IsNil()), "O9", "RET", fmt.Sprintf("%s: success returns the sub-group list that holds the head group (block %d)", funcKey(fn), b.Index), instrPos(ret), trunc(termOf(ret.Results[1]).String(), 80),
+			"the Ray grouper can succeed with NO sub-groups (head-only cluster): the stored PodGroup then has none, shouldUseSubGroups treats the workload as legacy for ever, and the same cluster gets different sub-groups depending on whether it was first reconciled before or after its workers were added")
+	}
+	c.Floor("O9", "RET successful returns of the Ray sub-group computation", n, 2)
 }
